@@ -213,7 +213,7 @@ func runC04(c *Ctx) {
 			n++
 			ok := true
 			var got []string
-			for _, lf := range w.Leaves(r.Results[0], r) {
+			for _, lf := range w.LeavesErr(r.Results[0], r) {
 				k, isK := errKindOf(lf.Val)
 				if isK && k == m.Kinds["Panic"] {
 					continue
@@ -426,7 +426,7 @@ func runC04(c *Ctx) {
 	})
 	c.Check(innerDone, "R3.nosilent", "Run|certificates added only after every CSR of the key was signed", w.Pos(m.AddCall.Pos()), "must-fact: the range over CSRs() is exhausted", "AddCertsToAgent can run before all CSRs of the key were signed")
 	// receivers: CSRs() and AddCertsToAgent on the same agent key; Sign gets the ranged CSR
-	c.Check(m.CSRsCall != nil && m.AddCall.Call.Value == m.CSRsCall.Call.Value, "R3.nosilent", "Run|certificates added to the key whose CSRs were signed", w.Pos(m.AddCall.Pos()), "same agent key value", "certificates are added to a different agent key than the one whose CSRs were signed")
+	c.Check(m.CSRsCall != nil && w.SameValue(run, m.AddCall.Call.Value, m.CSRsCall.Call.Value), "R3.nosilent", "Run|certificates added to the key whose CSRs were signed", w.Pos(m.AddCall.Pos()), "same agent key value", "certificates are added to a different agent key than the one whose CSRs were signed")
 
 	// ---- R4 ----
 	okR4 := true
